@@ -141,7 +141,7 @@ fn c13_fill_buf_at_end_of_input_reports_eof() {
 fn c15_seek_any_virtual_position_on_exhausted_stream() {
     let (block, _pos, _size, _len, _cur) = any_block();
     let v: u64 = kani::any();
-    let mut r = Reader { inner: io::Cursor::new(&b""[..]), buf: vec![0u8; 40], position: 0, block };
+    let mut r = Reader { inner: Exhausted, buf: vec![0u8; 40], position: 0, block };
     let s = kind_of(r.seek(VirtualPosition::from(v)));
     if s.is_ok() {
         let n = match r.fill_buf() {
@@ -153,6 +153,81 @@ fn c15_seek_any_virtual_position_on_exhausted_stream() {
         };
         assert_eq!(n, 0); // the stream is empty: any delivered byte would be fabricated (stale)
         let _ = r.virtual_position();
+        kani::cover!(true);
+    }
+    std::mem::forget(r);
+}
+
+/// a seekable source with nothing left to read at any position
+struct Exhausted;
+
+impl Read for Exhausted {
+    fn read(&mut self, _buf: &mut [u8]) -> io::Result<usize> {
+        Ok(0)
+    }
+}
+
+impl io::Seek for Exhausted {
+    fn seek(&mut self, pos: io::SeekFrom) -> io::Result<u64> {
+        match pos {
+            io::SeekFrom::Start(n) => Ok(n),
+            _ => Ok(0),
+        }
+    }
+}
+
+/// seekable in-memory file
+struct SliceFile<'a> {
+    data: &'a [u8],
+    pos: usize,
+}
+
+impl Read for SliceFile<'_> {
+    fn read(&mut self, buf: &mut [u8]) -> io::Result<usize> {
+        let avail = self.data.len() - self.pos.min(self.data.len());
+        let n = avail.min(buf.len());
+        buf[..n].copy_from_slice(&self.data[self.pos..self.pos + n]);
+        self.pos += n;
+        Ok(n)
+    }
+}
+
+impl io::Seek for SliceFile<'_> {
+    fn seek(&mut self, pos: io::SeekFrom) -> io::Result<u64> {
+        if let io::SeekFrom::Start(n) = pos {
+            self.pos = (n as usize).min(self.data.len());
+        }
+        Ok(self.pos as u64)
+    }
+}
+
+// @verif prop=C15,C02 id=O15.bgzf.seek2 twin=twin_c15_seek_into_block_with_any_in_block_offset tier=off off_reason="does not fit: >14 GB (read_frame_into + parse_block + error paths after seek); the F1 repair is therefore covered only by the native demo findings/F1_seek_beyond_block.rs" unwind=20 timeout=900 stubs="deflate::decode/crc32->stored-block model" bound="one-block BGZF file (2-byte payload, concrete) ; seek to block 0 with ANY in-block offset 0..=65535 (as an index may supply), then read_exact(1) and fill_buf: no panic; an accepted offset <= 2 continues with exactly the bytes from that offset" fns="Reader::seek,Reader::read_block,read_frame_into,parse_block,Data::set_position,Data::as_ref,Reader::read_exact,Reader::fill_buf"
+#[kani::proof]
+#[kani::unwind(20)]
+#[kani::stub(crate::deflate::decode, deflate_model::decode)]
+#[kani::stub(crate::deflate::crc32, deflate_model::crc32)]
+fn c15_seek_into_block_with_any_in_block_offset() {
+    // header + stored deflate block for b"ab" + CRC-32(b"ab") + ISIZE
+    let mut file = [0u8; 33];
+    {
+        let cdata = [0x01, 0x02, 0x00, 0xfd, 0xff, b'a', b'b'];
+        let mut sink: &mut [u8] = &mut file[..];
+        write_frame(&mut sink, &cdata, deflate_model::crc32(b"ab"), 2).unwrap();
+    }
+    let upos: u16 = kani::any();
+    let mut r = Reader { inner: SliceFile { data: &file[..], pos: 0 }, buf: vec![0u8; 40], position: 0, block: Block::default() };
+    let s = kind_of(r.seek(VirtualPosition::try_from((0, upos)).unwrap()));
+    if s.is_ok() {
+        assert!(upos <= 2); // an offset beyond the block is not a position in this file
+        let mut one = [0u8; 1];
+        let e = kind_of(r.read_exact(&mut one));
+        if upos < 2 {
+            assert!(e.is_ok() && one[0] == if upos == 0 { b'a' } else { b'b' });
+        }
+        let _ = r.virtual_position();
+        kani::cover!(upos == 1);
+    } else {
+        assert!(upos > 2);
         kani::cover!(true);
     }
     std::mem::forget(r);
@@ -170,6 +245,12 @@ fn twin_c15_seek_any_virtual_position_on_exhausted_stream() {
         100u64.to_le_bytes().to_vec(),  // virtual position (0, 100): offset beyond the 7-byte block
     ];
     kani::concrete_playback_run(vals, c15_seek_any_virtual_position_on_exhausted_stream);
+}
+
+#[test]
+fn twin_c15_seek_into_block_with_any_in_block_offset() {
+    let vals: Vec<Vec<u8>> = vec![100u16.to_le_bytes().to_vec()];
+    kani::concrete_playback_run(vals, c15_seek_into_block_with_any_in_block_offset);
 }
 
 #[test]
